@@ -34,7 +34,44 @@ type SeqCase struct {
 	NoStart   bool    `json:"no_explicit_start"` // first Next starts it (then start is unknown: only relative checks)
 }
 
-var finiteOpts = sg.Opts{MaxDepth: 3, MaxChildren: 5, MaxLeafTok: 12, MinDur: time.Millisecond, MaxDur: 20 * time.Second}
+var finiteOpts = sg.Opts{MaxDepth: 3, MaxChildren: 5, MaxLeafTok: 12, MinDur: time.Millisecond, MaxDur: 20 * time.Second,
+	IStepToBelowFrom: true}
+
+// istepBelow walks the tree in drawing order and reports whether it holds an
+// instance_step part with to < from (no step fits: `from` tokens at once, the
+// part finishes at its own start), whether such a part is followed by a further
+// elementary part (whose start is that finish), and whether one of them is at
+// least a whole step below (to <= from-step, e.g. `to` omitted).
+func istepBelow(n sg.Node) (any, beforeParts, wholeStep bool) {
+	pending := false
+	var walk func(n sg.Node)
+	walk = func(n sg.Node) {
+		if n.Kind == "composite" {
+			for _, c := range n.Children {
+				walk(c)
+			}
+			return
+		}
+		if pending {
+			beforeParts = true
+		}
+		if sg.IStepToBelowFrom(n) {
+			any, pending = true, true
+			if int64(n.To) <= int64(n.From)-n.Step {
+				wholeStep = true
+			}
+		}
+	}
+	walk(n)
+	return
+}
+
+func classIStepBelow(n sg.Node, o *vf.Obs) {
+	any, before, whole := istepBelow(n)
+	o.ClassIf(any, "istep_to_below_from")
+	o.ClassIf(before, "istep_to_below_from_before_parts")
+	o.ClassIf(whole, "istep_to_below_from_by_a_step")
+}
 
 func genSeq(t *rapid.T) SeqCase {
 	c := SeqCase{}
@@ -150,6 +187,7 @@ func checkSeq(c SeqCase, o *vf.Obs) error {
 	o.ClassIf(c.ViaConfig, "via_config")
 	o.ClassIf(c.Wrap, "callback_wrapper")
 	o.ClassIf(total >= 20, "tokens_ge_20")
+	classIStepBelow(c.Tree, o)
 	nLeft := 0
 	for i := 0; i < len(c.Script) && i < total+3; i++ {
 		if c.Script[i] {
@@ -251,6 +289,7 @@ func checkConc(c ConcCase, o *vf.Obs) error {
 	o.ClassIf(leftCallers > 0, "left_callers")
 	o.ClassIf(len(c.Callers) >= 4, "callers_ge_4")
 	o.ClassIf(c.Wrap, "callback_wrapper")
+	classIStepBelow(c.Tree, o)
 	if tokenLeaves >= 2 {
 		o.NonTrivial()
 	}
